@@ -64,3 +64,6 @@ func (p *Position) VerifRehash() VerifRaw {
 	p.hash = p.VerifHashFromScratch()
 	return p.VerifRaw()
 }
+
+func VerifHash8(basis uint64, b byte) uint64    { return hash8(basis, b) }
+func VerifHash64(basis uint64, w uint64) uint64 { return hash64(basis, w) }
